@@ -19,7 +19,9 @@ RULE = ("random host programs whose rotation numerators are Templates (1-3 names
         "values random in 0..255 (and ALL 256 values for a small program per axis), 1-4 flush segments with EVERY "
         "assignment pre-compiled / direct / pre-compiled-but-committed-after-the-next-segment's-operations-were-queued "
         "per segment (the all-direct assignment is twin B), vanilla pipeline and NV "
-        "pipeline (NVSubroutineTranspiler + NV-flavoured controller). Non-trivial = at least one segment was "
+        "pipeline (NVSubroutineTranspiler + NV-flavoured controller)."
+        ' An identical-rounds family compiles the same templated body 2-4 times on one connection with different template values per round (pre / direct / pre-late per round). '
+        "Non-trivial = at least one segment was "
         "pre-compiled and contained a templated rotation that was executed; distinct = distinct (program, values, modes, hardware).")
 ASSUMPTIONS = ["R-HOST gives the expected effect of the program with the concrete template values (transitively: precompiled == direct)",
                "in NV runs the applied-operation trace is not compared (different instruction set); arrays, registers, quantum state and host handles are"]
